@@ -180,6 +180,13 @@ theorem union_of_preserves_membership_partial (l : List RC) (res : VC) (h : unio
     ∀ p, p.wf = true → Regular (boundsOf l) p → res.allowsPlain p = anyAllows l p :=
   unionOfFlat_sem l res h hg
 
+/-- **`VersionUnion.of` is total** (never `RecursionError`/assertion) and preserves membership, for members
+none of whose lower bounds is a local build (`>=1.0+local` is the only way to get one). -/
+theorem union_of_total_partial (l : List RC) (hg : Good l) (hn : NoLocalLower l) :
+    ∃ res, unionOfFlat l = .ok res ∧
+      ∀ p, p.wf = true → Regular (boundsOf l) p → res.allowsPlain p = anyAllows l p :=
+  unionOfFlat_total l hg hn
+
 def union_of_full_statement : Prop :=
   ∀ l : List RC, Good l → ∃ res, unionOfFlat l = .ok res ∧ res.WF ∧
     ∀ p, p.wf = true → Regular (boundsOf l) p → res.allowsPlain p = anyAllows l p
@@ -211,6 +218,14 @@ theorem member_union_exact_partial (x y : RC) (hx : x.WF) (hy : y.WF) (htx : x.T
     (fun e he => hreg e (by simp at he ⊢; exact he.symm))
   exact ⟨e1, by rw [e1, e2, Bool.or_comm]⟩
 
+/-- **`a.union(b)` for two members is defined and exact** (lower bounds not local builds) -/
+theorem member_union_defined_partial (x y : RC) (hx : x.WF) (hy : y.WF) (htx : x.Tidy) (hty : y.Tidy)
+    (hloc : ∀ a b, x = .ver a → y = .ver b → (a.allows b = true ↔ b.allows a = true))
+    (hn : NoLocalLower [x, y]) :
+    ∃ res, RC.union x y = .ok res ∧
+      ∀ p, p.wf = true → Regular (x.bounds ++ y.bounds) p → res.allowsPlain p = (x.allows p || y.allows p) :=
+  RC.union_total x y hx hy htx hty hloc hn
+
 /-! ## difference -/
 
 /-- **version ∖ member is exact** -/
@@ -235,6 +250,16 @@ example : VRange.EndsConsistent exA exB ∧ VRange.EndsConsistent exB exA ∧
   refine ⟨?_, ?_, by decide⟩
   · intro h; exact absurd h (by decide)
   · intro _ x y hx hy; simp [exB] at hy
+
+/-- **range ∖ range is defined and exact** under the same hypotheses when none of `a.min`, `a.max`, `b.max` is a
+local build -/
+theorem range_difference_defined_partial (a b : VRange) (ha : a.WF) (hb : b.WF) (hta : a.Tidy) (htb : b.Tidy)
+    (hec : VRange.EndsConsistent a b)
+    (hnl : ∀ m M, a.min = some m → a.max = some M → m.allows M = false ∧ M.allows m = false)
+    (hloc : ∀ m, (a.min = some m ∨ a.max = some m ∨ b.max = some m) → m.isLocal = false) :
+    ∃ res, RC.difference (.rng a) (.rng b) = .ok res ∧
+      ∀ p, p.wf = true → Regular (a.bounds ++ b.bounds) p → res.allowsPlain p = (a.allows p && !b.allows p) :=
+  VRange.difference_total a b ha hb hta htb hec hnl hloc
 
 /-- **range ∖ version is exact whenever it returns**, for a version that is regular for the range's bounds
 (then the split point lies strictly inside the range). -/
